@@ -1,6 +1,9 @@
 import PdfModel.Lemmas.PageTree
 import PdfModel.Generated.Lexical
 import PdfModel.Lemmas.PageTreeBytes
+import PdfModel.Model.PageTreeDerived
+import PdfModel.Lemmas.PageTreeDerived
+import PdfModel.Lemmas.PageTreeDerivedBoxTrees
 
 /-!
   C07 — "Page n is the n-th leaf of the page tree; attributes come from nearest ancestor".
@@ -302,6 +305,173 @@ theorem attributes_nearest_bytes_partial (fmt : R → List UInt8) (env : Env R) 
   simp only [hi, dite_true] at this
   simp only [this, Out.bind_ok]
   exact ⟨media_box_nearest _, crop_box_nearest _, resources_nearest _⟩
+
+/-! ### the derived readers as node reader
+
+`PageTreeB.getPageBD` is the same composition with `PagesNode::from_primitive` read by the *generated* readers:
+`Derive.readPagesNode` (the /Type dispatch) over `Generated.generatedSchemas` — `Page` with all its fields, its
+`parent: PagesRc` loaded through the resolver (`envD`: `resolveB` on the opened file, primitives translated by `toD`),
+`Rectangle` through `baseRd`, `Resources` through its own schema — projected to what C07 observes (`projectNode`).
+The driver runs it on every file of the stream `c07.bytes.derived`. -/
+
+/-- **the one obligation left**: on the bodies the writer produced, read in the opened file, the generated readers
+    yield the node the hand-written `nodeOf` yields (kids, count, parent, media box, crop box, resources) -/
+def DerivedAgrees (bitsOf : R → Nat) (resolve : Nat → Out (Offsets.Obj (Prim R))) (t : PTree) : Prop :=
+  ∀ q ∈ (objsOf none t : List (Nat × Prim R)), derivedNode bitsOf resolve q.2 = nodeOf q.2
+
+/-- **Page i of the written file is the i-th leaf — from the bytes, with the generated readers of `Page` / `PageTree`**,
+    under the hypothesis `DerivedAgrees` for the opened file (everything else as in `page_nth_bytes_partial`). -/
+theorem page_nth_bytes_partial2 (bitsOf : R → Nat) (fmt : R → List UInt8) (env : Env R) (hd : env.decrypt = none)
+    (pfuel : Nat) (dec : Dict R → List UInt8 → Out (List UInt8)) (hdec : NoFilter dec) (id : Nat) (a : Attrs)
+    (ks : List PTree) (n : Nat) (hn : n ≤ 1000000) (hnd : (idsOf (.node id a ks)).Nodup)
+    (hrange : ∀ x ∈ idsOf (.node id a ks), 1 ≤ x ∧ x ≤ n) (hm : markersOK (.node id a ks) = true)
+    (hh : height (.node id a ks) ≤ 16) (hc : nLeaves (.node id a ks) ≤ 2147483647)
+    (bytes : List UInt8) (hw : writeDoc fmt (.node id a ks) n = .ok bytes)
+    (hsmall : bytes.length ≤ fileMax) (hpf : 3 * bytes.length ≤ pfuel) (rfuel lfuel : Nat) (hl : 16 < lfuel)
+    (hagree : ∀ tb T, openB env pfuel dec 2 bytes = .ok (0, tb, T) →
+      DerivedAgrees bitsOf (resolveB env pfuel dec (rfuel + 2) bytes 0 tb) (.node id a ks)) (i : Nat) :
+    getPageBD bitsOf env pfuel dec 2 (rfuel + 2) lfuel bytes i =
+      (if h : i < (leavesOf (.node id a ks)).length then .ok ((leavesOf (.node id a ks))[i]) else .err) ∧
+    numPagesBD bitsOf env pfuel dec 2 (rfuel + 2) lfuel bytes = .ok (leavesOf (.node id a ks)).length := by
+  obtain ⟨b', inf, hs, rfl⟩ : ∃ b' inf, saveB fmt true (preparedDoc fmt (.node id a ks) n) = (b', .ok inf) ∧ b'.bytes = bytes := by
+    unfold writeDoc at hw
+    cases hsv : saveB fmt true (preparedDoc fmt (.node id a ks) n) with
+    | mk b' r =>
+      rw [hsv] at hw
+      cases r with
+      | ok inf => simp only [Out.ok.injEq] at hw; exact ⟨b', inf, rfl, hw⟩
+      | err => cases hw
+      | panic => cases hw
+      | oof => cases hw
+  obtain ⟨tb, T, hopen, hroot, hcat, hobjs⟩ := written_objects fmt env hd pfuel dec hdec (.node id a ks) n hn hnd hrange hm hc
+    b' inf hs hsmall hpf rfuel
+  have hrootOf : rootOf env pfuel dec (rfuel + 2) b'.bytes 0 tb T = .ok id := by
+    have e : kRootK = SaveBytes.kRoot := by decide
+    simp only [rootOf, e, hroot, hcat, BuildBytes.catalogVal]
+    simp [dictGet, BuildBytes.kPagesT, BuildBytes.kVersion, SaveBytes.kType, PTree.id]
+  have hag := hagree tb T hopen
+  have htbl : ∀ q ∈ (objsOf none (.node id a ks) : List (Nat × Prim R)),
+      tblBD bitsOf env pfuel dec (rfuel + 2) b'.bytes 0 tb q.1 = some (nodeOf q.2) := by
+    intro q hq
+    simp only [tblBD, tblB, hobjs q hq, hag q hq]
+  have hrep := represents_of_objs (tblBD bitsOf env pfuel dec (rfuel + 2) b'.bytes 0 tb) (.node id a ks) none hm htbl
+    (fun _ _ => trivial) rfl
+  have hsz : nLeaves (.node id a ks) < 4294967296 := by omega
+  have hload := root_loads _ id a ks lfuel hrep (by omega) hsz
+  have hpage := page_nth _ id a ks lfuel hrep hh hl hsz i
+  have hnum := num_pages_eq_leaves (.node id a ks) rfl
+  constructor
+  · simp only [getPageBD, openPagesBD, hopen, hrootOf, hload]
+    exact hpage
+  · simp only [numPagesBD, openPagesBD, hopen, hrootOf, hload, hnum]
+
+/-- first step of `DerivedAgrees`, for every file: a /Pages node without /Parent and without attributes — the root of
+    an attribute-free tree — is read by the generated `PageTree` reader (through the /Type dispatch, at tower level
+    `lvl`) as the node `nodeOf` reads: /Kids in order, /Count. What is open beyond it is listed in notes/C07.md. -/
+theorem derived_agrees_bare_root (bitsOf : R → Nat) (resolve : Nat → Out (Offsets.Obj (Prim R))) (kids : List Nat)
+    (count : Nat) (hc : count ≤ 2147483647) :
+    derivedNode bitsOf resolve (nodeVal none kids count ⟨none, none, none⟩ : Prim R) =
+      nodeOf (nodeVal none kids count ⟨none, none, none⟩ : Prim R) := by
+  rw [derived_bare_root bitsOf resolve kids count hc, nodeOf_nodeVal none kids count _ (by decide)]
+
+/-- **`DerivedAgrees` discharged for attribute-free trees**: on every object of a written tree whose nodes carry no
+    inheritable attribute, the generated readers of `PageTree` and `Page` behind the /Type dispatch — every /Parent chain
+    loaded through the resolver of the opened file, one tower level per ancestor — yield the node `nodeOf` yields. The only
+    hypothesis is `DefaultZeroEvaluates` (the literal default `"0"` of `Page.rotate` evaluates: a fact about the model's
+    string functions that the kernel cannot reduce). -/
+theorem derived_agrees_attr_free_bytes (bitsOf : R → Nat) (hdf : DefaultZeroEvaluates)
+    (resolve : Nat → Out (Offsets.Obj (Prim R))) (t : PTree) (hn : isNode t = true) (hf : attrFree t = true)
+    (hh : height t ≤ 16) (hres : ∀ q ∈ (objsOf none t : List (Nat × Prim R)), resolve q.1 = .ok (.plain q.2)) :
+    DerivedAgrees bitsOf resolve t :=
+  derived_agrees_attr_free bitsOf resolve hdf t hn hf (by omega) hres
+
+/-- **Page i of the written file is the i-th leaf — from the bytes, with the generated readers, for attribute-free
+    trees**: no hypothesis about the reader is left except `DefaultZeroEvaluates`. -/
+theorem page_nth_bytes_partial3 (bitsOf : R → Nat) (hdf : DefaultZeroEvaluates) (fmt : R → List UInt8) (env : Env R)
+    (hd : env.decrypt = none) (pfuel : Nat) (dec : Dict R → List UInt8 → Out (List UInt8)) (hdec : NoFilter dec) (id : Nat)
+    (a : Attrs) (ks : List PTree) (n : Nat) (hn : n ≤ 1000000) (hnd : (idsOf (.node id a ks)).Nodup)
+    (hrange : ∀ x ∈ idsOf (.node id a ks), 1 ≤ x ∧ x ≤ n) (hfree : attrFree (.node id a ks) = true)
+    (hh : height (.node id a ks) ≤ 16) (hc : nLeaves (.node id a ks) ≤ 2147483647)
+    (bytes : List UInt8) (hw : writeDoc fmt (.node id a ks) n = .ok bytes)
+    (hsmall : bytes.length ≤ fileMax) (hpf : 3 * bytes.length ≤ pfuel) (rfuel lfuel : Nat) (hl : 16 < lfuel) (i : Nat) :
+    getPageBD bitsOf env pfuel dec 2 (rfuel + 2) lfuel bytes i =
+      (if h : i < (leavesOf (.node id a ks)).length then .ok ((leavesOf (.node id a ks))[i]) else .err) ∧
+    numPagesBD bitsOf env pfuel dec 2 (rfuel + 2) lfuel bytes = .ok (leavesOf (.node id a ks)).length := by
+  have hm : markersOK (.node id a ks) = true := markersOK_of_attrFree _ hfree
+  refine page_nth_bytes_partial2 bitsOf fmt env hd pfuel dec hdec id a ks n hn hnd hrange hm hh hc bytes hw hsmall hpf rfuel lfuel hl ?_ i
+  intro tb T hopen
+  -- the objects of the written file resolve to their bodies
+  obtain ⟨b', inf, hs, rfl⟩ : ∃ b' inf, saveB fmt true (preparedDoc fmt (.node id a ks) n) = (b', .ok inf) ∧ b'.bytes = bytes := by
+    unfold writeDoc at hw
+    cases hsv : saveB fmt true (preparedDoc fmt (.node id a ks) n) with
+    | mk b' r =>
+      rw [hsv] at hw
+      cases r with
+      | ok inf => simp only [Out.ok.injEq] at hw; exact ⟨b', inf, rfl, hw⟩
+      | err => cases hw
+      | panic => cases hw
+      | oof => cases hw
+  obtain ⟨tb', T', hopen', _, _, hobjs⟩ := written_objects fmt env hd pfuel dec hdec (.node id a ks) n hn hnd hrange hm hc
+    b' inf hs hsmall hpf rfuel
+  rw [hopen] at hopen'
+  simp only [Out.ok.injEq, Prod.mk.injEq, true_and] at hopen'
+  obtain ⟨rfl, _⟩ := hopen'
+  exact derived_agrees_attr_free_bytes bitsOf hdf _ (.node id a ks) rfl hfree hh hobjs
+
+/-- the same for trees whose nodes carry media and crop boxes (markers below 2²⁴ so that `Rectangle`'s `f32` entries are
+    exact; no /Resources): the `Rectangle` reader, the float conversion and its decoding are all inside the proof. -/
+theorem derived_agrees_boxes_bytes (bitsOf : R → Nat) (hdf : DefaultZeroEvaluates)
+    (resolve : Nat → Out (Offsets.Obj (Prim R))) (t : PTree) (hn : isNode t = true) (hf : boxOnly t = true)
+    (hh : height t ≤ 16) (hres : ∀ q ∈ (objsOf none t : List (Nat × Prim R)), resolve q.1 = .ok (.plain q.2)) :
+    DerivedAgrees bitsOf resolve t :=
+  derived_agrees_boxes bitsOf resolve hdf t hn hf (by omega) hres
+
+/-- **Page i of the written file is the i-th leaf, with inherited boxes — from the bytes, with the generated readers, for
+    trees carrying media and crop boxes** (no /Resources): the only hypothesis left is `DefaultZeroEvaluates`. -/
+theorem page_nth_bytes_partial4 (bitsOf : R → Nat) (hdf : DefaultZeroEvaluates) (fmt : R → List UInt8) (env : Env R)
+    (hd : env.decrypt = none) (pfuel : Nat) (dec : Dict R → List UInt8 → Out (List UInt8)) (hdec : NoFilter dec) (id : Nat)
+    (a : Attrs) (ks : List PTree) (n : Nat) (hn : n ≤ 1000000) (hnd : (idsOf (.node id a ks)).Nodup)
+    (hrange : ∀ x ∈ idsOf (.node id a ks), 1 ≤ x ∧ x ≤ n) (hbox : boxOnly (.node id a ks) = true)
+    (hh : height (.node id a ks) ≤ 16) (hc : nLeaves (.node id a ks) ≤ 2147483647)
+    (bytes : List UInt8) (hw : writeDoc fmt (.node id a ks) n = .ok bytes)
+    (hsmall : bytes.length ≤ fileMax) (hpf : 3 * bytes.length ≤ pfuel) (rfuel lfuel : Nat) (hl : 16 < lfuel) (i : Nat) :
+    getPageBD bitsOf env pfuel dec 2 (rfuel + 2) lfuel bytes i =
+      (if h : i < (leavesOf (.node id a ks)).length then .ok ((leavesOf (.node id a ks))[i]) else .err) ∧
+    numPagesBD bitsOf env pfuel dec 2 (rfuel + 2) lfuel bytes = .ok (leavesOf (.node id a ks)).length := by
+  have hm : markersOK (.node id a ks) = true := markersOK_of_boxOnly _ hbox
+  refine page_nth_bytes_partial2 bitsOf fmt env hd pfuel dec hdec id a ks n hn hnd hrange hm hh hc bytes hw hsmall hpf rfuel lfuel hl ?_ i
+  intro tb T hopen
+  obtain ⟨b', inf, hs, rfl⟩ : ∃ b' inf, saveB fmt true (preparedDoc fmt (.node id a ks) n) = (b', .ok inf) ∧ b'.bytes = bytes := by
+    unfold writeDoc at hw
+    cases hsv : saveB fmt true (preparedDoc fmt (.node id a ks) n) with
+    | mk b' r =>
+      rw [hsv] at hw
+      cases r with
+      | ok inf => simp only [Out.ok.injEq] at hw; exact ⟨b', inf, rfl, hw⟩
+      | err => cases hw
+      | panic => cases hw
+      | oof => cases hw
+  obtain ⟨tb', T', hopen', _, _, hobjs⟩ := written_objects fmt env hd pfuel dec hdec (.node id a ks) n hn hnd hrange hm hc
+    b' inf hs hsmall hpf rfuel
+  rw [hopen] at hopen'
+  simp only [Out.ok.injEq, Prod.mk.injEq, true_and] at hopen'
+  obtain ⟨rfl, _⟩ := hopen'
+  exact derived_agrees_boxes_bytes bitsOf hdf _ (.node id a ks) rfl hbox hh hobjs
+
+/-- the media box of page i of such a file, read from the bytes by the generated readers, is the nearest one on the way
+    to the root -/
+theorem media_box_nearest_bytes_boxes (bitsOf : R → Nat) (hdf : DefaultZeroEvaluates) (fmt : R → List UInt8) (env : Env R)
+    (hd : env.decrypt = none) (pfuel : Nat) (dec : Dict R → List UInt8 → Out (List UInt8)) (hdec : NoFilter dec) (id : Nat)
+    (a : Attrs) (ks : List PTree) (n : Nat) (hn : n ≤ 1000000) (hnd : (idsOf (.node id a ks)).Nodup)
+    (hrange : ∀ x ∈ idsOf (.node id a ks), 1 ≤ x ∧ x ≤ n) (hbox : boxOnly (.node id a ks) = true)
+    (hh : height (.node id a ks) ≤ 16) (hc : nLeaves (.node id a ks) ≤ 2147483647)
+    (bytes : List UInt8) (hw : writeDoc fmt (.node id a ks) n = .ok bytes)
+    (hsmall : bytes.length ≤ fileMax) (hpf : 3 * bytes.length ≤ pfuel) (rfuel lfuel : Nat) (hl : 16 < lfuel) (i : Nat)
+    (hi : i < (leavesOf (.node id a ks)).length) :
+    getPageBD bitsOf env pfuel dec 2 (rfuel + 2) lfuel bytes i = .ok ((leavesOf (.node id a ks))[i]) := by
+  have h := (page_nth_bytes_partial4 bitsOf hdf fmt env hd pfuel dec hdec id a ks n hn hnd hrange hbox hh hc bytes hw hsmall hpf
+    rfuel lfuel hl i).1
+  rw [h, dif_pos hi]
 
 /-! ### non-vacuity at byte level: a document is written, its bytes are opened, its pages are found -/
 
